@@ -19,8 +19,8 @@ import (
 	"github.com/ethereum/go-ethereum/event"
 	"github.com/libp2p/go-libp2p-core/peer"
 	"github.com/meshplus/bitxhub-core/order"
-	"github.com/meshplus/bitxhub-kit/crypto"
 	peermgr "github.com/meshplus/bitxhub-core/peer-mgr"
+	"github.com/meshplus/bitxhub-kit/crypto"
 	"github.com/meshplus/bitxhub-kit/types"
 	"github.com/meshplus/bitxhub-model/pb"
 	"github.com/meshplus/bitxhub/pkg/order/etcdraft"
@@ -77,6 +77,7 @@ func (p *clPeers) AsyncSend(to peermgr.KeyType, m *pb.Message) error {
 	p.net.send(p.id, to.(uint64), m.Data)
 	return nil
 }
+
 // Send serves the block-fetch requests of the state syncer from the blocks the target
 // replica has been handed by its orderer (the harness assumes a peer can serve every
 // block it has been handed; a peer that is down or does not have a block refuses).
@@ -223,18 +224,20 @@ type clReplica struct {
 	restarts    int
 	blocks      map[uint64]*pb.Block // blocks this replica can serve to a syncing peer
 	stalled     bool                 // its executor is busy: delivered blocks wait in the commit channel
+	lastHS      raftpb.HardState     // the hard state (term, vote, commit) most recently made durable by this replica
+	hasHS       bool
 }
 
 type clCluster struct {
-	root   string
-	net    *clNet
-	reps   []*clReplica
-	nodes  map[uint64]*pb.VpInfo
-	script []string
-	pos    int
-	txs    map[string]pb.Transaction
-	trace  []string
-	viol    []clViolation
+	root          string
+	net           *clNet
+	reps          []*clReplica
+	nodes         map[uint64]*pb.VpInfo
+	script        []string
+	pos           int
+	txs           map[string]pb.Transaction
+	trace         []string
+	viol          []clViolation
 	cfg           clConfig
 	fetches       int
 	snapshotsSent int
@@ -353,6 +356,14 @@ func (c *clCluster) boot(r *clReplica) {
 	if os.Getenv("VERIF_CL_DEBUG") != "" {
 		st := r.rn.Status()
 		fmt.Fprintf(os.Stderr, "CLDEBUG boot node %d: status %+v hasReady=%v\n", r.id, st, r.rn.VerifHasReady())
+	}
+	// a restarted replica resumes from the hard state it made durable: forgetting its term or
+	// its vote lets it vote twice in one term (two leaders, diverging logs)
+	if r.hasHS && r.restarts > 0 {
+		hs := r.rn.Status().HardState
+		if hs.Term != r.lastHS.Term || hs.Vote != r.lastHS.Vote || hs.Commit < r.lastHS.Commit {
+			c.violate("C20|cluster|restart-loses-durable-raft-state", "replica %d restarts with raft hard state (term %d, vote %d, commit %d) but had made (term %d, vote %d, commit %d) durable before it stopped", r.id, hs.Term, hs.Vote, hs.Commit, r.lastHS.Term, r.lastHS.Vote, r.lastHS.Commit)
+		}
 	}
 	r.alive = true
 	r.lastTaken = 0
@@ -523,7 +534,11 @@ func (c *clCluster) apply(ev string) {
 			}
 		}
 		reportsBefore := r.rn.VerifReports()
-		if why := c.runNode(r, sends, func() { r.n.Verif_listenRaftMsg_Select0("<-n.node.Ready()", rd) }); why != "" {
+		why := c.runNode(r, sends, func() { r.n.Verif_listenRaftMsg_Select0("<-n.node.Ready()", rd) })
+		if why == "" && !raft.IsEmptyHardState(rd.HardState) {
+			r.lastHS, r.hasHS = rd.HardState, true
+		}
+		if why != "" {
 			c.nodeCrashed(r, ev, why)
 		} else if snaps > 0 {
 			// send() reports the outcome of each snapshot message from its goroutine
@@ -798,11 +813,11 @@ type clPoint struct {
 
 type clExec struct {
 	fetches, snaps int
-	points  []clPoint
-	choices []int
-	viol    []clViolation
-	trace   []string
-	events  int
+	points         []clPoint
+	choices        []int
+	viol           []clViolation
+	trace          []string
+	events         int
 }
 
 const clMaxEvents = 600
